@@ -188,7 +188,7 @@ class Origins:
             if 1 <= local <= self.body.argc:
                 return ("arg", local)
             return ("uninit", local)
-        if len(defs) == 1:
+        if len(defs) == 1 and not (1 <= local <= self.body.argc):
             site = defs[0]
             key = (local, "single")
             if key in self._memo:
